@@ -141,6 +141,30 @@ fn sc_wide(prop: &str) -> LevelCfg {
     c
 }
 
+/// SC-bulk: macro letters that reach *large* configurations in one transition: 8 / 70 resting orders,
+/// 36 cancels in a row, 40 amendments of one order (thresholds such as 8, 16, 32, 64 hide behind these)
+fn sc_bulk(prop: &str) -> LevelCfg {
+    let ts = [Tmpl::S5, Tmpl::IC23];
+    let mut c = base_cfg(prop, "SC-bulk", LEVEL_PRICE, tmpl_named(&ts, LEVEL_PRICE));
+    c.max_orders = 4;
+    c.ops = vec![
+        Op::BulkAdd(8),
+        Op::BulkAdd(70),
+        Op::BulkCancel(36),
+        Op::BulkCancel(5),
+        Op::Churn(1, 40),
+        Op::Add(1, 0),
+        Op::Add(2, 1),
+        Op::Upd(UpdKind::Cancel, 1),
+        Op::Upd(UpdKind::Amend(1), 2),
+        Op::Upd(UpdKind::Amend(6), 1),
+        Op::Match(1),
+        Op::Match(25),
+        Op::Match(1000),
+    ];
+    c
+}
+
 /// SC-edge: quantities at the 64-bit limits on a level of price 1
 fn sc_edge(prop: &str) -> LevelCfg {
     let m = u64::MAX;
@@ -231,6 +255,15 @@ pub fn plans(prop: &str, tier: &str) -> Vec<Plan> {
                 Plan { cfg: e, depth: d(5, 10) },
                 Plan { cfg: w, depth: d(4, 8) },
                 Plan { cfg: { let mut x = sc_wide(prop); x.check.c01 = true; x }, depth: d(6, 8) },
+                Plan {
+                    cfg: {
+                        let mut x = sc_bulk(prop);
+                        x.check.c01 = true;
+                        x.ops.extend([Op::Restore(Path::FromSnapshot), Op::Restore(Path::SnapJson), Op::Restore(Path::Text)]);
+                        x
+                    },
+                    depth: d(6, 7),
+                },
             ]
         }
         "C02" => {
@@ -305,7 +338,13 @@ pub fn plans(prop: &str, tier: &str) -> Vec<Plan> {
             zz.check.drain = true;
             zz.variants = vec![(false, false), (true, false), (false, true), (true, true)];
             let plan_zz = Plan { cfg: zz, depth: d(5, 8) };
+            let mut bk = sc_bulk(prop);
+            bk.check.c04 = true;
+            bk.check.drain = true;
+            bk.variants = vec![(false, false), (true, false), (false, true), (true, true)];
+            let plan_bk = Plan { cfg: bk, depth: d(5, 7) };
             vec![
+                plan_bk,
                 plan_zz,
                 Plan { cfg: o, depth: d(6, 8) },
                 Plan { cfg: a, depth: d(5, 7) },
@@ -323,7 +362,11 @@ pub fn plans(prop: &str, tier: &str) -> Vec<Plan> {
             x.check.c06 = true;
             x.check.drain = true;
             x.ops.extend(upds(&[1, 2, 3, 5], &[UpdKind::Amend(0)]));
+            let mut bk = sc_bulk(prop);
+            bk.check.c06 = true;
+            bk.check.drain = true;
             vec![
+                Plan { cfg: bk, depth: d(5, 7) },
                 Plan { cfg: z, depth: d(7, 13) },
                 Plan { cfg: a, depth: d(4, 7) },
                 Plan { cfg: x, depth: d(6, 8) },
@@ -351,10 +394,16 @@ pub fn plans(prop: &str, tier: &str) -> Vec<Plan> {
             w.check.drain = true;
             w.absent_ops = true;
             w.variants = vec![(false, false), (true, false), (false, true), (true, true)];
+            let mut bk = sc_bulk(prop);
+            bk.check.c07 = true;
+            bk.check.twin = true;
+            bk.check.drain = true;
+            bk.variants = vec![(false, false), (true, false), (false, true), (true, true)];
             vec![
                 Plan { cfg: a, depth: d(4, 6) },
                 Plan { cfg: o, depth: d(5, 7) },
                 Plan { cfg: w, depth: d(4, 7) },
+                Plan { cfg: bk, depth: d(4, 6) },
             ]
         }
         "C10" => {
@@ -364,10 +413,13 @@ pub fn plans(prop: &str, tier: &str) -> Vec<Plan> {
             o.check.c10 = true;
             let mut e = sc_edge(prop);
             e.check.c10 = true;
+            let mut bk = sc_bulk(prop);
+            bk.check.c10 = true;
             vec![
                 Plan { cfg: a, depth: d(3, 5) },
                 Plan { cfg: o, depth: d(4, 7) },
                 Plan { cfg: e, depth: d(3, 6) },
+                Plan { cfg: bk, depth: d(4, 5) },
             ]
         }
         "C11" => {
@@ -453,6 +505,15 @@ pub fn emit_unit_test(cfg: &LevelCfg, hist: &[u16], message: &str) -> String {
             Op::Upd(kind, id) => {
                 let u = cfg.update_of(kind, id);
                 t.push_str(&format!("    let r = {level_var}.update_order(\"{u}\".parse::<OrderUpdate>().unwrap());\n    println!(\"{name} -> {{:?}}\", r.map(|o| o.map(|o| o.to_string())));\n"));
+            }
+            Op::BulkAdd(n) => {
+                t.push_str(&format!("    for i in 0..{n}u64 {{ {level_var}.add_order(OrderType::Standard {{ id: OrderId::from_u64(100 + i), price: {}, quantity: 2, side: pricelevel::Side::Buy, timestamp: 1000 + i, time_in_force: pricelevel::TimeInForce::Gtc, extra_fields: () }}); }}\n", cfg.price));
+            }
+            Op::BulkCancel(n) => {
+                t.push_str(&format!("    for i in 0..{n}u64 {{ let _ = {level_var}.update_order(OrderUpdate::Cancel {{ order_id: OrderId::from_u64(100 + i) }}); }}\n"));
+            }
+            Op::Churn(id, n) => {
+                t.push_str(&format!("    for _ in 0..{n} {{ let _ = {level_var}.update_order(OrderUpdate::UpdateQuantity {{ order_id: OrderId::from_u64({id}), new_quantity: 1 }}); }}\n"));
             }
             Op::Restore(pth) => {
                 k += 1;
